@@ -429,12 +429,139 @@ Lemma poly_min_sound : forall depth cs lo hi l u, (lo <= hi)%Q ->
 Proof.
   intros depth cs lo hi l u Hle H. unfold poly_min in H.
   destruct (poly_max depth (map (fun c => Qred (- c)) cs) lo hi) as [l0 u0] eqn:E.
-  injection H as Hl Hu; subst l u.
+  change ((Qred (- u0), Qred (- l0)) = (l, u)) in H.
+  apply pair_equal_spec in H. destruct H as [Hl Hu]. subst l u.
   destruct (poly_max_sound depth _ lo hi l0 u0 Hle E) as [(x & A & B & C) D].
   split.
   - exists x. split; [exact A|]. split; [exact B|].
-    apply eqR_Qeq. Show. rewrite Q2R_Qred, Q2R_opp.
+    apply eqR_Qeq. rewrite Q2R_Qred, Q2R_opp.
     rewrite <- (Qeq_eqR _ _ C). rewrite <- !reval_Q, reval_neg. ring.
   - intros y Hy. rewrite Q2R_Qred, Q2R_opp.
     pose proof (D y Hy) as D'. rewrite reval_neg in D'. lra.
+Qed.
+
+(** * Closed forms for degree 1 and 2 *)
+Lemma solve_linear_exact : forall a b y x, a <> 0 -> (a * x + b = y <-> x = (y - b) / a).
+Proof.
+  intros a b y x Ha. split; intros H.
+  - subst y. field. exact Ha.
+  - subst x. field. exact Ha.
+Qed.
+
+Lemma solve_quadratic_exact : forall a b c x, a <> 0 ->
+  let d := b * b - 4 * a * c in
+  (a * x * x + b * x + c = 0 <->
+   (0 <= d /\ (x = (- b - sqrt d) / (2 * a) \/ x = (- b + sqrt d) / (2 * a)))).
+Proof.
+  intros a b c x Ha d. split.
+  - intros H.
+    assert (Hd : d = Rsqr (2 * a * x + b)).
+    { unfold d, Rsqr.
+      replace (b * b - 4 * a * c) with (b * b - 4 * a * c + 4 * a * (a * x * x + b * x + c))
+        by (rewrite H; ring).
+      ring. }
+    split.
+    + rewrite Hd. apply Rle_0_sqr.
+    + rewrite Hd, sqrt_Rsqr_abs.
+      unfold Rabs. destruct (Rcase_abs (2 * a * x + b)) as [Hneg | Hpos].
+      * left. field. exact Ha.
+      * right. field. exact Ha.
+  - intros [Hd Hx].
+    pose proof (sqrt_sqrt d Hd) as Hs.
+    set (s := sqrt d) in *.
+    assert (Hk : (2 * a * x + b) * (2 * a * x + b) = s * s).
+    { destruct Hx as [Hx | Hx]; rewrite Hx; field; exact Ha. }
+    assert (H4 : 4 * a * (a * x * x + b * x + c) = 0).
+    { replace (4 * a * (a * x * x + b * x + c))
+        with ((2 * a * x + b) * (2 * a * x + b) - (b * b - 4 * a * c)) by ring.
+      rewrite Hk, Hs. unfold d. ring. }
+    apply Rmult_integral in H4. destruct H4 as [H4 | H4]; [| exact H4].
+    exfalso. apply Ha. lra.
+Qed.
+
+(** * Cauchy's bound *)
+Lemma cauchy_real : forall (l : list R) cn M x, cn <> 0 -> 0 <= M ->
+  (forall c, In c l -> Rabs c <= M) -> 1 + M / Rabs cn <= Rabs x ->
+  Rabs cn <= Rabs (horner ROps (l ++ [cn]) x).
+Proof.
+  intros l cn M x Hcn HM. induction l as [|c l IH]; intros Hl Hx.
+  - change (horner ROps ([] ++ [cn]) x) with (cn + x * 0).
+    replace (cn + x * 0) with cn by ring. apply Rle_refl.
+  - change (horner ROps ((c :: l) ++ [cn]) x) with (c + x * horner ROps (l ++ [cn]) x).
+    set (h := horner ROps (l ++ [cn]) x) in *.
+    assert (Hh : Rabs cn <= Rabs h).
+    { apply IH; [| exact Hx]. intros c' Hc'. apply Hl. right. exact Hc'. }
+    assert (Hc : Rabs c <= M) by (apply Hl; left; reflexivity).
+    assert (Hpos : 0 < Rabs cn) by (apply Rabs_pos_lt; exact Hcn).
+    pose proof (Rabs_triang (c + x * h) (- c)) as Ht.
+    replace (c + x * h + - c) with (x * h) in Ht by ring.
+    rewrite Rabs_Ropp, Rabs_mult in Ht.
+    assert (Hprod : (1 + M / Rabs cn) * Rabs cn <= Rabs x * Rabs h).
+    { apply Rmult_le_compat; try assumption.
+      - apply Rplus_le_le_0_compat; [lra|]. apply Rmult_le_pos; [exact HM|].
+        apply Rlt_le. apply Rinv_0_lt_compat. exact Hpos.
+      - lra. }
+    replace ((1 + M / Rabs cn) * Rabs cn) with (Rabs cn + M) in Hprod by (field; lra).
+    lra.
+Qed.
+
+Lemma fold_max_abs : forall l a,
+  Q2R a <= Q2R (fold_left (fun a c => Qmax' a (Qabs' c)) l a) /\
+  (forall c, In c l -> Rabs (Q2R c) <= Q2R (fold_left (fun a c => Qmax' a (Qabs' c)) l a)).
+Proof.
+  induction l as [|c l IH]; intros a.
+  - split; [apply Rle_refl | intros c []].
+  - change (fold_left (fun a c => Qmax' a (Qabs' c)) (c :: l) a)
+      with (fold_left (fun a c => Qmax' a (Qabs' c)) l (Qmax' a (Qabs' c))).
+    destruct (IH (Qmax' a (Qabs' c))) as [A B].
+    pose proof (Qmax'_l a (Qabs' c)) as K1.
+    pose proof (Qmax'_r a (Qabs' c)) as K2. rewrite Q2R_Qabs' in K2.
+    split; [lra|].
+    intros c' [Hc' | Hc'].
+    + subst c'. lra.
+    + apply B. exact Hc'.
+Qed.
+
+Lemma cauchy_bound_sound : forall cs x, cs <> [] -> ~ (last cs 0 == 0)%Q ->
+  reval cs x = 0 -> Rabs x <= Q2R (cauchy_bound cs).
+Proof.
+  intros cs x Hne Hlast Hroot. unfold cauchy_bound.
+  destruct (rev cs) as [|lead rest] eqn:Erev.
+  - exfalso. apply Hne. rewrite <- (rev_involutive cs), Erev. reflexivity.
+  - assert (Hcs : cs = rev rest ++ [lead]).
+    { rewrite <- (rev_involutive cs), Erev. reflexivity. }
+    assert (Hl : last cs 0%Q = lead) by (rewrite Hcs; apply last_last).
+    rewrite Hl in Hlast.
+    destruct (Qeq_bool lead 0) eqn:Eb.
+    + exfalso. apply Hlast. apply Qeq_bool_eq. exact Eb.
+    + assert (Hlead : Q2R lead <> 0).
+      { intros H0. apply Hlast. apply eqR_Qeq. rewrite H0, Q2R_0. reflexivity. }
+      set (M := fold_left (fun a c => Qmax' a (Qabs' c)) rest 0%Q).
+      rewrite Q2R_Qred, Q2R_plus, Q2R_div_total, Q2R_1, Q2R_Qabs'.
+      destruct (fold_max_abs rest 0%Q) as [HM0 HMc]. fold M in HM0, HMc.
+      rewrite Q2R_0 in HM0.
+      destruct (Rle_dec (Rabs x) (1 + Q2R M / Rabs (Q2R lead))) as [Hc | Hc]; [exact Hc|].
+      exfalso.
+      assert (Hbig : Rabs (Q2R lead) <= Rabs (horner ROps (map Q2R (rev rest) ++ [Q2R lead]) x)).
+      { apply (cauchy_real _ _ (Q2R M)); [exact Hlead | exact HM0 | | lra].
+        intros c Hc'. apply in_map_iff in Hc'. destruct Hc' as (q & Hq & Hin). subst c.
+        apply HMc. apply in_rev. exact Hin. }
+      unfold reval in Hroot. rewrite Hcs, map_app in Hroot.
+      change (map Q2R [lead]) with [Q2R lead] in Hroot.
+      rewrite Hroot, Rabs_R0 in Hbig.
+      pose proof (Rabs_pos_lt _ Hlead). lra.
+Qed.
+
+(** The statement of Props/Properties_C13.v as written (no [lo <= hi]) is refuted. *)
+Lemma first_root_sound_unhyp_false :
+  ~ (forall depth cs lo hi,
+       match first_root depth cs lo hi with
+       | NoRoot => forall x, Q2R lo <= x <= Q2R hi -> reval cs x <> 0
+       | Maybe a b => (lo <= a)%Q /\ (a <= b)%Q /\ (b <= hi)%Q /\
+                      forall x, Q2R lo <= x < Q2R a -> reval cs x <> 0
+       end).
+Proof.
+  intros H. specialize (H O [] 1%Q 0%Q).
+  destruct first_root_counterexample as [E N]. rewrite E in H.
+  destruct H as (_ & H & _). exact (N H).
 Qed.
